@@ -28,7 +28,7 @@ META = {
     'level_note': 'This is mostly the "transcribe a case analysis and turn every model case into an implementation test" use '
                   'of TLC: handlers are sequential step lists, calls are atomic in the model (the driver is lock-step).  '
                   'Bounds: 2 clients, 2 streams, 1 group, 1 cursor id, log length <= 2.  The TLS layer that puts the client '
-                  'id into the context is not exercised (the context value is set directly).',
+                  'id into the context is exercised by a sub-sample of the behaviours over a real gRPC/TLS connection.',
     'design_ref': 'DESIGN.md section 6/C15',
 }
 
@@ -140,11 +140,11 @@ def features(b, step_index):
     return f
 
 
-def execute(d, behaviours):
+def execute(d, behaviours, test='^TestVerifC15$'):
     stim = os.path.join(d, 'stim.json')
     trace = os.path.join(d, 'trace-all.ndjson')
     core.write_json(stim, {'behaviours': behaviours})
-    rc, out, wall = core.go_test('server', '^TestVerifC15$', {'VERIF_STIMULI': stim, 'VERIF_TRACE_OUT': trace},
+    rc, out, wall = core.go_test('server', test, {'VERIF_STIMULI': stim, 'VERIF_TRACE_OUT': trace},
                                  timeout=1700, subs=['c15'])
     if rc != 0 or not os.path.exists(trace):
         raise core.Inconclusive('harness failed rc=%s: %s' % (rc, out[-3000:]))
@@ -219,7 +219,7 @@ def run(rep, tier, seed, replay):
     for b in cands:
         by_stratum.setdefault(stratum(b), []).append(b)
     per = 1 if tier == 'quick' else 4
-    budget = 900 if tier == 'quick' else 1500
+    budget = 240 if tier == 'quick' else 1500
     chosen = []
     keys = sorted(by_stratum, key=str)
     rng.shuffle(keys)
@@ -251,6 +251,28 @@ def run(rep, tier, seed, replay):
             trace2, _, lines2 = execute(d, extra)
             judge(rep, trace2, lines2, extra, stats)
             chosen += extra
+        # the same behaviours over a real gRPC/TLS connection: the client id comes from the certificate through the
+        # interceptors of server/authz.go and the enforcer is the one the server builds from its configuration
+        import copy
+        tls_ok = set(MODEL_METHODS) - GROUP_METHODS - {'PublishAsync'}
+        tls_b = [copy.deepcopy(b) for b in chosen
+                 if all(s['a'] != 'Call' or (s['call']['c'] == 'alice' and s['call']['m'] in tls_ok) for s in b['steps'])]
+        tls_b.sort(key=lambda b: not unauthorised(b['cfg']['policy'], b['steps'][0]['call']))
+        seen_m = {}
+        pick = []
+        for b in tls_b:          # spread over methods, unauthorised first
+            m = b['steps'][0]['call']['m']
+            if seen_m.get(m, 0) < (3 if tier == 'quick' else 12):
+                seen_m[m] = seen_m.get(m, 0) + 1
+                pick.append(b)
+        for n, b in enumerate(pick):
+            b['id'] = 100000 + n
+            b['cfg']['mode'] = 'tls'
+        if pick:
+            trace3, _, lines3 = execute(d, pick, test='^TestVerifC15TLS$')
+            judge(rep, trace3, lines3, pick, stats)
+        stats['tls'] = len(pick)
+        chosen += pick
     if stats.get('drifting'):
         core.write_json(os.path.join(core.BUILD, 'drift-C15.json'), {'replay': {'behaviours': stats['drifting'][:20]}})
     phases['judge'] = round(time.time() - t0, 1)
@@ -258,6 +280,7 @@ def run(rep, tier, seed, replay):
     rep.cov['api_methods_by_reflection'] = methods
     rep.cov['api_methods_unknown_to_model'] = unknown
     rep.cov['model_methods_missing_in_api'] = missing
+    rep.cov['behaviours_over_tls'] = stats.get('tls', 0)
     rep.cov['strata_available'] = len(by_stratum)
     rep.cov['strata_executed'] = len({stratum(b) for b in chosen if b['steps'][0]['call']['m'] in MODEL_METHODS})
     rep.cov['traces_validated_against_impl'] = len(chosen)
@@ -272,6 +295,6 @@ def run(rep, tier, seed, replay):
                        'target stream); non-trivial = the first call is unauthorised or the behaviour contains a policy '
                        'edit/reload; distinct by hash of (start situation, steps)')
     rep.cov['samples'] = chosen[:2]
-    rep.assumptions += ['the client id reaches the handler through the context value "clientID" (TLS layer not exercised)',
+    rep.assumptions += ['in-process calls set the context value "clientID" directly; the TLS sub-sample uses the repo test certificates (CN client1)',
                         'calls are executed one at a time (lock-step driver)',
                         'TLC evaluates the TLA+ predicates correctly']
